@@ -395,7 +395,9 @@ def uniform(data: ttb.tensor, samples: int) -> sample_type:
         ).astype(int)
         - 1
     )
-    vals = data[subs]
+    # One value per sample, as a vector like the weights (a sparse tensor hands its
+    # values out as a column, a single dense value comes as a scalar)
+    vals = np.asarray(data[subs]).reshape(-1)
     wgts = (np.prod(data.shape) / samples) * np.ones((samples,))
     return subs, vals, wgts
 
